@@ -127,12 +127,13 @@ def sx_record(schema, rec):
             fields.append("(R %s)" % " ".join(sx_an("pairs", rec, c) for c in CONDS))
         elif t == "keep":
             fields.append(sx_keep(rec))
-        elif (isinstance(t, str) and t.startswith("!")) or (isinstance(t, tuple) and t[0].startswith("!")):
+        elif t == "!str":
+            fields.append(sx_an("str", rec, k))
+        elif isinstance(t, tuple) and t[0].startswith("!"):
             if rec.get(k) is None:
                 fields.append("None")
             else:
-                tt = t[1:] if isinstance(t, str) else t
-                fields.append("(Some %s)" % sx_val(tt, rec[k]))
+                fields.append("(Some %s)" % sx_val(t, rec[k]))
         else:
             fields.append(sx_an(t, rec, k))
     return "(R " + " ".join(fields) + ")"
